@@ -817,6 +817,13 @@ func runC11(r *core.Run) {
 			// a source with more logs than one export page (the export walks the logs 100 at a time)
 			nops = 205 + rng.Intn(20)
 			r.Count("histories_longer_than_two_export_pages", 1)
+			// and one log whose exported line is far longer than 64 KiB (a transaction with hundreds of postings)
+			var ps []sim.P
+			for k := 0; k < 700; k++ {
+				ps = append(ps, sim.P{Source: "world", Destination: fmt.Sprintf("payouts:batch:%04d:beneficiary", k), Asset: "USD/2", Amount: fmt.Sprint(1000 + k)})
+			}
+			src.apply("a-transaction-with-700-postings", sim.Op{Kind: "postings", Postings: ps, Metadata: map[string]string{"k1": "bulk payout"}})
+			r.Count("histories_with_an_export_line_over_64KiB", 1)
 		}
 		for i := 0; i < nops; i++ {
 			if !clean && i > 0 && rng.Intn(6) == 0 {
